@@ -215,4 +215,90 @@ def c04():
     return v.finish()
 
 
-CHECKS = {"C01": c01, "C02": c02, "C03": c03, "C04": c04}
+def c14():
+    """lexical scoping: alpha-equivalent renderings (naming schemes, renamed types / functions / labels, permuted declarations) of the same
+    generated tree must get the same verdict and, when accepted, the same outcome - the one the specifications assign to every rendering"""
+    t0 = time.time()
+    c = rt.campaign()
+    v = vlib.Verdict("C14")
+    groups = collections.defaultdict(list)
+    for p in c["progs"]:
+        if p.get("ast") is not None:
+            groups[p["ast"]].append(p)
+    runs_by = collections.defaultdict(list)
+    for r in c["runs"]:
+        runs_by[r["prog"]].append(r)
+    sx = c["sax"]
+    verdict_groups = outcome_groups = variants = 0
+    model_mismatch = 0
+    for ast, ps in sorted(groups.items()):
+        variants += len(ps)
+        def verdict(p):
+            fe = p["fe"]
+            if fe.get("crash") or fe.get("hang"):
+                return "crash"
+            if fe.get("parse") != "ok":
+                return "parse-error"
+            return "accept" if fe.get("tc") == "ok" else "reject"
+        vs = collections.defaultdict(list)
+        for p in ps:
+            vs[verdict(p)].append(p)
+        verdict_groups += 1
+        if "parse-error" in vs:
+            v.harness_errors.append("rendering does not parse: %s: %s" % (vs["parse-error"][0]["name"], vs["parse-error"][0]["fe"].get("parse")))
+            continue
+        if len(vs) > 1:
+            a, b = [x[0] for x in vs.values()][:2]
+            v.violation("alpha-equivalent programs get different verdicts: %s is %sed (%s) but %s is %sed" %
+                        (a["name"], verdict(a), str(a["fe"].get("tc"))[:160], b["name"], verdict(b)),
+                        {"program_a": a["text"], "program_b": b["text"], "verdict_a": a["fe"], "verdict_b": b["fe"]},
+                        {"kind": "verdict", "schemes": sorted({p["scheme"] for p in ps})})
+            continue
+        if "accept" not in vs:
+            continue
+        # the specification's outcome must itself be invariant (guards the oracle)
+        refbags = {tuple(sx[p["name"]]["bag"]) for p in ps if p["name"] in sx and sx[p["name"]]["unique"]}
+        if len(refbags) > 1:
+            model_mismatch += 1
+            v.harness_errors.append("Sax.tla assigns different multisets to renderings of tree %s" % ast)
+            continue
+        outcome_groups += 1
+        for mode in ("async", "sync", "np"):
+            bags = collections.defaultdict(list)
+            stuck = collections.defaultdict(list)
+            for p in ps:
+                for r in runs_by.get(p["name"], []):
+                    if r["mode"] != mode or r["hang"] or r["late"] or r["prints"] is None or r.get("nonterminating") or r.get("premature"):
+                        continue
+                    if mode == "np" and not p["cfree"]:
+                        continue
+                    key = "CRASH" if r["crash"] else " ".join(sorted(r["prints"]))
+                    bags[key].append((p, r))
+                    if not r["crash"] and mode != "np":
+                        stuck[len(_blocked_bad(r)) > 0].append((p, r))
+            if len(bags) > 1:
+                (ka, la), (kb, lb) = list(bags.items())[:2]
+                v.violation("alpha-equivalent programs behave differently in mode %s: %s prints [%s], %s prints [%s]" % (mode, la[0][0]["name"], ka[:120], lb[0][0]["name"], kb[:120]),
+                            {"program_a": la[0][0]["text"], "program_b": lb[0][0]["text"], "run_a": la[0][1]["id"], "run_b": lb[0][1]["id"], "outcome_a": ka, "outcome_b": kb},
+                            {"kind": "outcome", "mode": mode})
+            elif len(stuck) > 1:
+                a, b = stuck[True][0], stuck[False][0]
+                v.violation("alpha-equivalent programs differ in completion (mode %s): %s leaves a stuck process, %s does not" % (mode, a[0]["name"], b[0]["name"]),
+                            {"program_a": a[0]["text"], "program_b": b[0]["text"], "run_a": a[1]["id"], "run_b": b[1]["id"], "stuck": _blocked_bad(a[1])},
+                            {"kind": "completion", "mode": mode})
+    _model_issues(c, v, ())
+    g = [ps for ps in groups.values()]
+    cov = _common_coverage(c, {
+        "traces_validated_against_impl": sum(1 for ps in g for p in ps if p["name"] in sx),
+        "trees": len(groups), "renderings": variants, "groups_verdict_compared": verdict_groups, "groups_outcome_compared": outcome_groups,
+        "ill_typed_trees": sum(1 for a in groups if a < 0),
+        "schemes": sorted({p["scheme"] + ("/" + p["ids"] if p.get("ids") and p["ids"] != "plain" else "") for ps in g for p in ps}),
+        "reference_outcome_invariant_for_all_groups": model_mismatch == 0,
+        "samples": [{"tree": ps[0]["ast"], "renderings": [p["name"] for p in ps], "text_a": ps[0]["text"][:500], "text_b": ps[-1]["text"][:500]} for ps in g[:2]]})
+    vlib.write_evidence("C14", "model_checking", cov, time.time() - t0, len(v.violations),
+                        ASSUME + ["renderings of one tree differ only in binder spellings (unique / per-declaration / re-use of consumed spellings / spellings of other declarations' channels), in the spellings of type names, function names and labels, in the use of self vs the provider's bound name, and in declaration order",
+                                  "the expected outcome of every rendering is the multiset Sax.tla computes for its own dump; the group check adds that these are equal"])
+    return v.finish()
+
+
+CHECKS = {"C01": c01, "C02": c02, "C03": c03, "C04": c04, "C14": c14}
